@@ -102,6 +102,11 @@ func genLines(t *rapid.T, v6 bool, allowBad bool, min int) []Line {
 			if !v6 && net.ParseIP(bad.IP).To4() != nil {
 				bad.IP = "2001:db8::77"
 			}
+			if !v6 && rapid.IntRange(0, 2).Draw(t, "mixed-notation") == 0 {
+				// an IPv6 address whose last 32 bits are written as a dotted quad: it has dots, it parses,
+				// and it is not an IPv4 address
+				bad.IP = rapid.SampledFrom([]string{"2001:db8::192.0.2.1", "64:ff9b::10.0.0.5", "::10.1.2.3", "fe80::1:10.0.0.1"}).Draw(t, "mixed")
+			}
 		}
 		pos := rapid.IntRange(0, len(ls)).Draw(t, "badpos")
 		ls = append(ls[:pos], append([]Line{bad}, ls[pos:]...)...)
